@@ -83,6 +83,8 @@ type Case struct {
 	// profile cases: the selectors as the real parser delivered them (value unquoted) and the gin table of the context
 	ProfSels []ProfSel `json:"prof_sels,omitempty"`
 	ProfGin  string    `json:"prof_gin,omitempty"`
+	// the five profile table names of the context: series gin, series gin dist, series, series dist, profiles dist
+	ProfTables []string `json:"prof_tables,omitempty"`
 	Err    string   `json:"err,omitempty"` // parse | plan
 }
 
@@ -210,6 +212,24 @@ func build(c *Case) (pl *plan, kind string, err error) {
 				sp = &prof_transpiler.StreamSelectorPlanner{Selectors: script.Selectors}
 			case "label_names":
 				sp, err = prof_transpiler.PlanLabelNames([]*prof_parser.Script{script})
+			case "label_names_all":
+				sp, err = prof_transpiler.PlanLabelNames(nil)
+			case "label_names2", "series2":
+				var second *prof_parser.Script
+				second, err = prof_parser.Parse(`{job="x2"}`)
+				if err != nil {
+					kind = "parse"
+					return
+				}
+				if c.Mode == "series2" {
+					sp, err = prof_transpiler.PlanSeries([]*prof_parser.Script{script, second}, nil)
+				} else {
+					sp, err = prof_transpiler.PlanLabelNames([]*prof_parser.Script{script, second})
+				}
+			case "series_all":
+				sp, err = prof_transpiler.PlanSeries(nil, []string{"a"})
+			case "select_series_avg":
+				sp, err = prof_transpiler.PlanSelectSeries(script, tid, nil, v1.TimeSeriesAggregationType_TIME_SERIES_AGGREGATION_TYPE_AVERAGE, 60)
 			case "label_values":
 				sp, err = prof_transpiler.PlanLabelValues([]*prof_parser.Script{script}, "job")
 			case "merge_traces":
@@ -479,7 +499,11 @@ func run(c *Case) {
 		c.Windows = [][2]int64{{c.Ctx.FromNs, c.Ctx.ToNs}}
 	}
 	c.Top = []string{runTop(c)}
-	c.ProfGin = mkCtx(c, c.Windows[0], 0).ProfilesSeriesGinTable
+	pc0 := mkCtx(c, c.Windows[0], 0)
+	c.ProfGin = pc0.ProfilesSeriesGinTable
+	if c.Lang == "prof" {
+		c.ProfTables = []string{pc0.ProfilesSeriesGinTable, pc0.ProfilesSeriesGinDistTable, pc0.ProfilesSeriesTable, pc0.ProfilesSeriesDistTable, pc0.ProfilesDistTable}
+	}
 	pl0, kind, err := build(c)
 	if err != nil {
 		c.Err = kind + ": " + err.Error()
@@ -758,6 +782,9 @@ func generate(seed int64, n int) []*Case {
 			c.Lang = "prof"
 			c.Query = genProf(r)
 			c.Mode = []string{"selector", "selector", "label_names", "label_values", "merge_traces", "select_series", "merge_profiles", "analyze", "series"}[r.Intn(9)]
+			if rm := hx.Rand(seed*977 + int64(i)); rm.Intn(3) == 0 {
+				c.Mode = []string{"label_names_all", "label_names2", "series2", "series_all", "select_series_avg"}[rm.Intn(5)]
+			}
 		}
 		k := 1 + r.Intn(5)
 		c.Windows = genWindows(r, k)
